@@ -292,7 +292,7 @@ func (s *Scen) attHistories(tier string, rng *rand.Rand) []*History {
 	}
 	back := common.Slot(2 * uint64(s.spec().SLOTS_PER_EPOCH))
 	if s.Name == "nofin" {
-		back = 36
+		back = 12
 	}
 	sites := s.attSites(back)
 	if len(sites) == 0 {
